@@ -250,6 +250,22 @@ func init() {
 		delete(w.ext, "settling")
 		return nil
 	})
+	reg("verifnd.Quiesce", func(w *World, t *Thread, fr *frame, fn *ssa.Function, args []Value) Value {
+		// wait until every other thread is finished or blocked
+		cond := func() bool {
+			for _, o := range w.threads {
+				if o == t || o.done {
+					continue
+				}
+				if o.waitCond == nil || o.waitCond() {
+					return false
+				}
+			}
+			return true
+		}
+		w.block(t, "Quiesce", cond)
+		return nil
+	})
 	reg("verifnd.HTTPPosts", func(w *World, t *Thread, fr *frame, fn *ssa.Function, args []Value) Value {
 		n := 0
 		if v, ok := w.ext["httpposts"]; ok {
@@ -360,6 +376,10 @@ func init() {
 			}
 		}
 		w.ext["preemptonly"] = set
+		return nil
+	})
+	reg("verifnd.TimersFire", func(w *World, t *Thread, fr *frame, fn *ssa.Function, args []Value) Value {
+		w.ext["timersfire"] = true
 		return nil
 	})
 	reg("verifnd.FirstTouchReduction", func(w *World, t *Thread, fr *frame, fn *ssa.Function, args []Value) Value {
